@@ -21,11 +21,16 @@ import vmodel
 
 PROPERTY = "C01"
 RULE = (
-    "generated networks (tflgen profiles 'exact', 'cascade' = tall planes with small arena caches, 'approx' = exact body + one approximate-class tail operator) x compiler "
-    "configurations (6 accelerators x memory modes x optimise x allocators x arena cache sizes) x 3 input tensors per compilation (uniform random, extremes checkerboard, ramp); "
-    "the source network is evaluated with reference kernels re-written from the TFLite definitions, the output file by walking its operators: CPU operators with the same "
-    "kernels, every ethos-u operator by executing its decoded command stream over exactly the flash bytes, weights (decoded with the pinned reference decoder), scale records "
-    "and tables of the file; outputs must be equal (exact class) or within one step (approximate tail).  "
+    "generated networks (tflgen profiles: 'exact', 'cascade' = tall planes with small arena caches incl. x2 resize, 'slices' = SLICE/STRIDED_SLICE (masks, negative indices, new/shrunk axes)/"
+    "SPLIT/SPLIT_V/PACK/UNPACK/TRANSPOSE/CONCAT/PAD feeding every consumer kind, 'elementwise' = every broadcast form, 'reshapes' = every operator directly before/after RESHAPE/"
+    "EXPAND_DIMS/SQUEEZE, 'mixed' and 'fanout' = tensors shared between Ethos-U and CPU operators and copies that cannot be bypassed, 'convs' = kernels/strides/per-axis dilations, "
+    "'int16', 'approx' = exact body + one approximate-class tail operator: padded/wide-stride average pool, LOGISTIC, TANH, HARD_SWISH, LEAKY_RELU, PRELU, ABS, EXP, LOG, SQRT, RSQRT, GELU, "
+    "MEAN (ranks 2-4, any axes), RESIZE_BILINEAR, TRANSPOSE_CONV (square and rectangular)) x compiler configurations (6 accelerators x memory modes x optimise x allocators x arena cache "
+    "sizes) x 3 input tensors per compilation (uniform random, extremes checkerboard, ramp); the source network is evaluated with reference kernels re-written from the TFLite "
+    "definitions, the output file by walking its operators: CPU operators with the same kernels, every ethos-u operator by executing its decoded command stream over exactly the flash "
+    "bytes, weights (decoded with the pinned reference decoder), scale records and tables of the file.  Every model output has its own tolerance: 0 when only exact-class operators "
+    "produce it, 1 when an approximate-class operator lies upstream and only selecting/clamping operators follow it, not asserted when an arithmetic operator consumes an approximate "
+    "result (the deviation may be amplified); elements for which the reference defines no value (SQRT/LOG/RSQRT outside their domain) are masked.  "
     "non-trivial = the artefact holds >=1 arithmetic NPU operation, the comparison was decided (no unmodelled feature) and the outputs differ between two of the inputs; "
     "distinct = hash(operator codes and shapes, configuration, schedule features)."
 )
